@@ -382,3 +382,32 @@ func ChecksWrappedProduct(rows, cols int) [][]int {
 	}
 	return make([][]int, rows)
 }
+
+type codeRange struct{ Start, Target uint32 }
+type RangeTable struct{ ranges []codeRange }
+
+// SortsByTargetSearchesByStart violates R7.5.
+func (t *RangeTable) SortsByTargetSearchesByStart(code uint32) int {
+	sort.Slice(t.ranges, func(i, j int) bool { return t.ranges[i].Target < t.ranges[j].Target })
+	return sort.Search(len(t.ranges), func(i int) bool { return t.ranges[i].Start > code })
+}
+
+type runeSpan struct{ start, end int }
+
+// CutsBytesAtRunePositions violates R13.8.
+func CutsBytesAtRunePositions(text string) []string {
+	var spans []runeSpan
+	runes := []rune(text)
+	start := 0
+	for i := 0; i < len(runes); i++ {
+		if runes[i] == '.' {
+			spans = append(spans, runeSpan{start: start, end: i + 1})
+			start = i + 1
+		}
+	}
+	var out []string
+	for _, s := range spans {
+		out = append(out, text[s.start:s.end])
+	}
+	return out
+}
